@@ -49,7 +49,7 @@ TEXT.update({
   "technique": "symbolic execution of the rustc MIR of the data set writer, the PDU writer and the PDU receiver over a sink / transport contract whose k-th call fails, k chosen by the solver; replay over real failing writers / readers",
   "level": "For a token stream through DataSetWriter::write (sequence, elements, encapsulated pixel data with an odd fragment; both strategies; quick: Explicit VR LE, thorough: 3 codecs), for write_pdu on an A-ASSOCIATE-RQ with user "
            "sub-items and for read_pdu_from_wire over up to 3 reads: whichever call of the underlying writer / transport fails, the operation that made the call returns Err (never Ok), and no panic call is reachable.",
-  "note": "writers and the synchronous receiver only: files (meta group, deflate adapter flushing), the P-DATA writer's finish-on-drop, zero-length writes and the asynchronous paths are outside",
+  "note": "writers and the synchronous receiver only: files (meta group, deflate adapter flushing), the P-DATA writer's finish-on-drop, partial writes and the asynchronous paths are outside; the data set writer is also run with the failing call being a zero-length write",
  },
  "C36": {
   "engine": "M",
